@@ -3,7 +3,7 @@
    The state p is ANY PeerConnection state of Model/OfferShape.v -- reachable or
    not, with any remote description -- so every history of the modelled calls
    is covered. *)
-From Coq Require Import List NArith String Permutation.
+From Coq Require Import List NArith String Bool Permutation.
 Import ListNotations.
 From Verif Require Import Common.Base Common.NegoText Model.OfferShape Model.OfferTrackDetails
   Proofs.OfferShape Proofs.OfferTrackDetails.
@@ -63,6 +63,23 @@ Theorem c12_remark_former_mid_collision_repaired :
 Proof. exact dup_mid_repaired. Qed.
 Print Assumptions c12_remark_former_mid_collision_repaired.
 
+(* Remark on the calls that do NOT succeed (the gap noted earlier): when
+   generateMatchedSDP fails at a remote section -- a mid no local transceiver
+   carries, reachable through a remote answer that names such a mid -- the
+   transceivers matched before it keep their setNegotiated mark (and the mids
+   given out stay). The model follows that (matched_prefix / mark_at); the
+   witness: the sender AddTrack put on the first transceiver is not negotiated
+   before the failing CreateOffer and is negotiated after it. The same history
+   is replayed on the real code in the corpus (the mark shows as AddEncoding
+   being refused after the next startRTPSenders). *)
+Theorem c12_remark_failed_offer_keeps_marks_witness :
+  let p := run_ops (pc_init false) failed_offer_history in
+  negotiated_flags p = [Some false; None]
+  /\ o_status (snd (fst (create_offer p))) = "mid-not-found"
+  /\ negotiated_flags (fst (fst (create_offer p))) = [Some true; None].
+Proof. exact failed_offer_keeps_marks. Qed.
+Print Assumptions c12_remark_failed_offer_keeps_marks_witness.
+
 (* An application section is present exactly when a data channel was created
    or AlwaysNegotiateDataChannels is set. "A data channel was created" covers
    both sides: locally (CreateDataChannel: want_data) or by the remote peer and
@@ -118,9 +135,9 @@ Print Assumptions c12_sender_without_track.
    encoding whose track and stream ids contain no space, SSRCs that fit 32 bits
    and non-zero repair SSRCs that differ from the primary SSRC and from each
    other, the m-section's attributes yield exactly one track with that mid,
-   kind, stream id, track id, primary SSRC and RTX / FEC SSRCs. (More than one
-   encoding -- the simulcast envelope -- is covered by the correspondence suite
-   only.) *)
+   kind, stream id, track id, primary SSRC and RTX / FEC SSRCs. (Any number of
+   encodings: c12_track_details_sources / c12_track_details_roundtrip_encodings
+   below; this is their one-encoding instance, kept in its explicit form.) *)
 Theorem c12_track_details_roundtrip : forall mid k tr ssrc rtx fec neg sent stopped,
   no_space (k_id tr) = true -> no_space (k_stream tr) = true ->
   (ssrc < 4294967296)%N -> (rtx < 4294967296)%N -> (fec < 4294967296)%N ->
@@ -132,6 +149,59 @@ Theorem c12_track_details_roundtrip : forall mid k tr ssrc rtx fec neg sent stop
            td_ssrcs := [ssrc]; td_rtx := nz rtx; td_fec := nz fec; td_rids := [] |}].
 Proof. exact roundtrip_single. Qed.
 Print Assumptions c12_track_details_roundtrip.
+
+(* Any number of encodings (the simulcast envelope). Premises: the first
+   encoding's track (= Sender().Track(), whose ids addSenderSDP writes) has ids
+   without spaces; every announced ssrc value (primary, and the non-zero RTX /
+   FEC ones: [enc_vals]) fits 32 bits and all of them are pairwise distinct.
+
+   First the switch over the attribute lines (ssrc-group / msid / ssrc), i.e.
+   tracksInMediaSection before the rid step: exactly one track per encoding, in
+   encoding order, each with that encoding's primary SSRC and its RTX / FEC
+   SSRCs (None when 0), all with the sender's stream / track ids; the running
+   streamID / trackID end as the sender's. *)
+Theorem c12_track_details_sources : forall mid k tr e0 rest neg sent stopped,
+  e_track e0 = Some tr ->
+  no_space (k_id tr) = true -> no_space (k_stream tr) = true ->
+  Forall (fun n => (n < 4294967296)%N) (flat_map enc_vals (e0 :: rest)) ->
+  NoDup (flat_map enc_vals (e0 :: rest)) ->
+  exists st,
+    td_loop mid k td_init
+      (sender_attrs (Some {| sn_encs := e0 :: rest; sn_negotiated := neg; sn_sent := sent; sn_stopped := stopped |}))
+    = Ok st
+    /\ ts_tracks st = map (fun e => {| td_mid := mid; td_kind := k; td_stream := k_stream tr; td_id := k_id tr;
+                                      td_ssrcs := [e_ssrc e]; td_rtx := nz (e_rtx e); td_fec := nz (e_fec e);
+                                      td_rids := [] |}) (e0 :: rest)
+    /\ ts_stream st = k_stream tr /\ ts_track st = k_id tr.
+Proof. exact sources_of_sender. Qed.
+Print Assumptions c12_track_details_sources.
+
+(* ... then what trackDetailsFromSDP returns for the section. With one encoding
+   there is no rid line and the result is that track. With several encodings
+   the section carries one a=rid line per encoding; when the sender's track and
+   stream ids are non-empty the code REPLACES the per-ssrc tracks by a single
+   simulcast track: mid, kind, stream id, track id, the rids of the encodings in
+   order, and no SSRC at all (the per-encoding SSRCs of the offer are not
+   reported for a simulcast section; the receiver learns them from the rid
+   header extension). With an empty id the per-ssrc tracks stay. Rids without
+   spaces (AddEncoding and NewTrackLocalStaticRTP accept any string). *)
+Theorem c12_track_details_roundtrip_encodings : forall mid k tr e0 rest neg sent stopped,
+  e_track e0 = Some tr ->
+  no_space (k_id tr) = true -> no_space (k_stream tr) = true ->
+  Forall (fun e => no_space (enc_rid e) = true) (e0 :: rest) ->
+  Forall (fun n => (n < 4294967296)%N) (flat_map enc_vals (e0 :: rest)) ->
+  NoDup (flat_map enc_vals (e0 :: rest)) ->
+  track_details_media mid k
+    (sender_attrs (Some {| sn_encs := e0 :: rest; sn_negotiated := neg; sn_sent := sent; sn_stopped := stopped |}))
+  = Ok (if Nat.ltb 1 (List.length (e0 :: rest))
+           && (negb (String.eqb (k_id tr) "") && negb (String.eqb (k_stream tr) ""))
+        then [{| td_mid := mid; td_kind := k; td_stream := k_stream tr; td_id := k_id tr;
+                 td_ssrcs := []; td_rtx := None; td_fec := None; td_rids := map enc_rid (e0 :: rest) |}]
+        else map (fun e => {| td_mid := mid; td_kind := k; td_stream := k_stream tr; td_id := k_id tr;
+                              td_ssrcs := [e_ssrc e]; td_rtx := nz (e_rtx e); td_fec := nz (e_fec e);
+                              td_rids := [] |}) (e0 :: rest)).
+Proof. exact roundtrip_encodings. Qed.
+Print Assumptions c12_track_details_roundtrip_encodings.
 
 (* premises are satisfiable on non-trivial states *)
 Example c12_roundtrip_nontrivial :
@@ -163,3 +233,28 @@ Example c12_app_witness_reachable :
   exists p' d fx, create_offer p = (p', ok_desc d, fx)
     /\ want_data p = false /\ existsb is_app (d_secs d) = true.
 Proof. vm_compute. eexists _, _, _. repeat split. Qed.
+
+(* three simulcast encodings with RTX on all and FEC on one: the premises of the
+   two encodings theorems hold and the outcomes are as stated *)
+Definition c12_simulcast_sender : sender :=
+  let t r := {| k_id := "cam"; k_stream := "room"; k_rid := r |} in
+  {| sn_encs := [ {| e_track := Some (t "q"); e_ssrc := 10; e_rtx := 11; e_fec := 0 |};
+                  {| e_track := Some (t "h"); e_ssrc := 20; e_rtx := 21; e_fec := 22 |};
+                  {| e_track := Some (t "f"); e_ssrc := 30; e_rtx := 31; e_fec := 0 |} ];
+     sn_negotiated := false; sn_sent := false; sn_stopped := false |}.
+
+Example c12_simulcast_nontrivial :
+  NoDup (flat_map enc_vals (sn_encs c12_simulcast_sender))
+  /\ track_details_media "0" Video (sender_attrs (Some c12_simulcast_sender))
+     = Ok [{| td_mid := "0"; td_kind := Video; td_stream := "room"; td_id := "cam";
+              td_ssrcs := []; td_rtx := None; td_fec := None; td_rids := ["q"; "h"; "f"] |}]
+  /\ (exists st, td_loop "0" Video td_init (sender_attrs (Some c12_simulcast_sender)) = Ok st
+                 /\ map td_ssrcs (ts_tracks st) = [[10%N]; [20%N]; [30%N]]
+                 /\ map td_rtx (ts_tracks st) = [Some 11%N; Some 21%N; Some 31%N]
+                 /\ map td_fec (ts_tracks st) = [None; Some 22%N; None]).
+Proof.
+  split; [|split].
+  - vm_compute. repeat constructor; cbn; intuition congruence.
+  - vm_compute. reflexivity.
+  - vm_compute. eexists. repeat split.
+Qed.
